@@ -322,11 +322,13 @@ def run(ctx):
     ctx.exhaustive = True
     # degrees up to 10 in 1-D on few cells (uniform breakpoints keep the exact arithmetic within 32 bits)
     hi = []
-    try:
-        hi = so.run_box(ctx, 8 if quick else 10, 2 if quick else 3, 3, kinds=("clamped",), what="degrees to %d, <=%d cells" % (8 if quick else 10, 2 if quick else 3))
-        hi = [s for s in hi if s.p > 5]
-    except Machinery as ex:
-        ctx.note("high-degree box not available in 32-bit exact arithmetic: %s" % str(ex)[:150])
+    for deg, cells in ((8, 2),) if quick else ((10, 3), (10, 2), (9, 2), (8, 2)):
+        try:
+            hi = so.run_box(ctx, deg, cells, 3, kinds=("clamped",), what="degrees to %d, <=%d cells" % (deg, cells))
+            hi = [s for s in hi if s.p > 5]
+            break
+        except Machinery as ex:
+            ctx.note("high-degree box (degree <= %d, <= %d cells) not available in 32-bit exact arithmetic: %s" % (deg, cells, str(ex)[:150]))
     stats = {"evals": 0}
     todo = list(spaces)
     if quick:
